@@ -84,6 +84,8 @@ def prepare(cfg, pid):
         overlay = write_overlay(cfg.get("overlay", "access"))
         if cfg.get("puppet"):
             gen_puppet(env)
+        elif cfg.get("plugins"):
+            build_plugins(env)
         return overlay
     finally:
         fcntl.flock(lock, fcntl.LOCK_UN)
@@ -121,7 +123,7 @@ def write_overlay(kind):
     return path
 
 
-def gen_puppet(env):
+def build_plugins(env):
     bindir = os.path.join(WORK, "bin")
     os.makedirs(bindir, exist_ok=True)
     rc, out = run(["go", "build", "-o", os.path.join(bindir, "protoc-gen-gorums"),
@@ -132,6 +134,11 @@ def gen_puppet(env):
                    "google.golang.org/protobuf/cmd/protoc-gen-go"], cwd=HARNESS, env=env, timeout=900)
     if rc != 0:
         raise Inconclusive("cannot build protoc-gen-go:\n" + out)
+
+
+def gen_puppet(env):
+    bindir = os.path.join(WORK, "bin")
+    build_plugins(env)
     rc, out = run(["go", "build", "-o", os.path.join(bindir, "vgen"), "./cmd/vgen"], cwd=HARNESS, env=env, timeout=900)
     if rc != 0:
         raise Inconclusive("cannot build vgen:\n" + out)
